@@ -46,10 +46,19 @@ pub struct Host {
     pub inside_added: Vec<usize>,
     /// handle_syscalls() called from inside a hook was (wrongly) accepted
     pub inside_builtin: bool,
+    pub code_start: u64,
+    /// offsets (into the code) of 32-bit immediates that hooks may rewrite
+    pub patch_slots: Vec<u64>,
+    pub patch_counter: u64,
 }
 
 /// What hooks (and the host) can see of the machine, minus the places only hooks write to.
 pub fn digest(ax: &Axecutor, mask: &Mask, scratch: u64) -> u64 {
+    digest_ex(ax, mask, scratch, 0)
+}
+
+/// like `digest`, additionally leaving out the area that starts at `code` (hooks may patch code bytes)
+pub fn digest_ex(ax: &Axecutor, mask: &Mask, scratch: u64, code: u64) -> u64 {
     let mut h = 0xcbf2_9ce4_8422_2325u64;
     for (i, r) in GPR64.iter().enumerate() {
         if mask.gpr[i] && i != 15 {
@@ -65,7 +74,7 @@ pub fn digest(ax: &Axecutor, mask: &Mask, scratch: u64) -> u64 {
     let mut ext = ax.verif_area_extents();
     ext.sort();
     for (start, len, access, _) in ext {
-        if scratch != 0 && start == scratch {
+        if (scratch != 0 && start == scratch) || (code != 0 && start == code) {
             continue;
         }
         h = mix_hash(h, &start.to_le_bytes());
@@ -152,7 +161,7 @@ fn install_dispatch(host: &Rc<RefCell<Host>>) {
             mn_ok: format!("{m:?}") == spec.mnemonic,
             rip: ax.reg_read_64(SupportedRegister::RIP).unwrap_or(0),
             count: ax.verif_executed(),
-            digest: digest(ax, &h.mask, h.scratch),
+            digest: digest_ex(ax, &h.mask, h.scratch, if h.patch_slots.is_empty() { 0 } else { h.code_start }),
             finished: ax.verif_finished(),
             answer: ans.clone(),
             reg_inside: None,
@@ -184,6 +193,32 @@ fn install_dispatch(host: &Rc<RefCell<Host>>) {
                         }
                         ev.reg_inside = Some(ok);
                     }
+                }
+            }
+            "SE" => {
+                ax.stop();
+                result = Err(format!("scripted hook failure (after stop) of hook {id}").into());
+            }
+            "MS" => {
+                h.mutate_counter += 1;
+                let v = 0xC0DE_0000_0000u64 + h.mutate_counter;
+                let _ = ax.reg_write_64(SupportedRegister::R15, v);
+                if h.scratch != 0 {
+                    let _ = ax.mem_write_64(h.scratch, v);
+                }
+                h.last_mutate = Some(v);
+                ax.stop();
+            }
+            "P" => {
+                // self-modifying code through the host: rewrite a 32-bit immediate of an instruction of the program
+                if !h.patch_slots.is_empty() {
+                    h.patch_counter += 1;
+                    let slot = h.patch_slots[(h.patch_counter as usize) % h.patch_slots.len()];
+                    let v = (0x1000 + h.patch_counter * 0x101) & 0x7fff_ffff;
+                    let cs = h.code_start;
+                    let _ = ax.mem_prot(cs, 7);
+                    let _ = ax.mem_write_32(cs + slot, v);
+                    let _ = ax.mem_prot(cs, 5);
                 }
             }
             "RS" => {
@@ -279,6 +314,9 @@ fn build(sc: &Sc, rng_seed: u64, set_limit: bool) -> Result<Machine, String> {
         last_mutate: None,
         inside_added: Vec::new(),
         inside_builtin: false,
+        code_start: sc.code_start,
+        patch_slots: sc.patch_slots.clone(),
+        patch_counter: 0,
     }));
     let mut m = Machine {
         code_end: if sc.symbols.is_empty() { sc.code_start + code.len() as u64 } else { 0 },
@@ -579,7 +617,7 @@ fn drive_step(sc: &Sc, rng_seed: u64, ctx: &mut Ctx, oracles: bool, record_diges
         let ins = fetch(&m.ax, pre_rip);
         let mn_name = ins.map(|i| format!("{:?}", i.mnemonic())).unwrap_or_else(|| "nofetch".into());
         let hooked = ins.map(|_| m.reg.before.contains_key(&mn_name) || m.reg.after.contains_key(&mn_name)).unwrap_or(false);
-        let d_pre = if oracles && hooked { digest(&m.ax, &mask, sc.scratch) } else { 0 };
+        let d_pre = if oracles && hooked { digest_ex(&m.ax, &mask, sc.scratch, if sc.patch_slots.is_empty() { 0 } else { sc.code_start }) } else { 0 };
         let must_fail = pre_fin || limit_reached;
         let obs_before_fail = if must_fail && oracles { Some(observe(&m.ax)) } else { None };
         let log_start = m.host.borrow().log.len();
@@ -613,7 +651,9 @@ fn drive_step(sc: &Sc, rng_seed: u64, ctx: &mut Ctx, oracles: bool, record_diges
             ctx.event(&format!("hook:{}:{}", if e.before { "b" } else { "a" }, e.answer), &format!("{} {:x} {} {:x}", e.hook, e.rip, e.count, e.digest));
             match e.answer.as_str() {
                 "E" => ctx.fault("hook_err"),
-                "S" => ctx.fault("hook_stop"),
+                "SE" => ctx.fault("hook_stop_and_err"),
+                "P" => ctx.fault("code_patched_by_hook"),
+                "S" | "MS" => ctx.fault("hook_stop"),
                 "H" => ctx.fault("hook_handled"),
                 "R" | "RS" => ctx.fault("hook_reentrant_register"),
                 "M" => ctx.fault("hook_mutate"),
@@ -663,10 +703,10 @@ fn drive_step(sc: &Sc, rng_seed: u64, ctx: &mut Ctx, oracles: bool, record_diges
             before_stopped = bs;
         } else {
             for e in evs.iter() {
-                if e.answer == "E" {
+                if e.answer == "E" || e.answer == "SE" {
                     hook_failed = true;
                 }
-                if e.answer == "S" {
+                if e.answer == "S" || e.answer == "SE" || e.answer == "MS" {
                     hook_stopped = true;
                     if e.before {
                         before_stopped = true;
@@ -749,10 +789,19 @@ fn drive_step(sc: &Sc, rng_seed: u64, ctx: &mut Ctx, oracles: bool, record_diges
                 if oracles {
                     let actual: Vec<(u64, u64, u8, i16, u64)> = m.ax.verif_trace().iter().map(|t| (t.instr_ip, t.target, t.variant, t.level, t.count)).collect();
                     let actual_stack = m.ax.verif_call_stack();
-                    let after_hook_failed = evs.iter().any(|e| !e.before && e.answer == "E");
+                    let after_hook_failed = evs.iter().any(|e| !e.before && (e.answer == "E" || e.answer == "SE"));
                     if let (Some(i), true) = (ins, after_hook_failed) {
                         // the instruction itself completed (its after-hook failed): it is traced like any other
                         let top_ret = i.mnemonic() == Mnemonic::Ret && m.rsp0 == Some(pre_rsp);
+                        // ... and it counts and finishes like any other (C11)
+                        let at_end = post_rip == m.code_end;
+                        let exp_fin = at_end || top_ret || hook_stopped;
+                        if exp_fin != post_fin {
+                            ctx.dev("C11", format!("C11|finished|want={exp_fin}|after_hook_error|{mn_name}"), format!("finished={post_fin} after {mn_name} whose after-hook failed (code end: {at_end}, top-level RET: {top_ret}, hook stop: {hook_stopped})"));
+                        }
+                        if post_count != pre_count + 1 {
+                            ctx.dev("C11", format!("C11|count|after_hook_error|{mn_name}"), format!("count went {pre_count} -> {post_count} although the instruction completed"));
+                        }
                         c18_check(ctx, &mut tracer, &m.ax, &i, &mn_name, post_rip, top_ret && post_fin, before_stopped);
                     } else if !before_stopped {
                         // the instruction did not complete (guest fault, fetch fault or failing before-hook):
@@ -900,7 +949,7 @@ fn c12_check(
                     inv[*id] += 1;
                     pred_before.push((*id, a.clone()));
                     match a.as_str() {
-                        "E" => {
+                        "E" | "SE" => {
                             ph_before = Ph::Failed;
                             break;
                         }
@@ -908,7 +957,7 @@ fn c12_check(
                             ph_before = Ph::Handled;
                             break;
                         }
-                        "S" => {
+                        "S" | "MS" => {
                             ph_before = Ph::Stopped;
                             break;
                         }
@@ -928,7 +977,7 @@ fn c12_check(
                     inv[*id] += 1;
                     pred_after.push((*id, a.clone()));
                     match a.as_str() {
-                        "E" => {
+                        "E" | "SE" => {
                             ph_after = Ph::Failed;
                             break;
                         }
@@ -936,7 +985,7 @@ fn c12_check(
                             ph_after = Ph::Handled;
                             break;
                         }
-                        "S" => {
+                        "S" | "MS" => {
                             ph_after = Ph::Stopped;
                             break;
                         }
@@ -961,7 +1010,14 @@ fn c12_check(
     for e in evs.iter() {
         match e.answer.as_str() {
             "E" => hook_failed = true,
-            "S" => {
+            "SE" => {
+                hook_failed = true;
+                hook_stopped = true;
+                if e.before {
+                    before_stopped = true;
+                }
+            }
+            "S" | "MS" => {
                 hook_stopped = true;
                 if e.before {
                     before_stopped = true;
@@ -1019,7 +1075,7 @@ fn c12_check(
         }
     }
     // what the hooks saw
-    let d_post = digest(&m.ax, mask, sc.scratch);
+    let d_post = digest_ex(&m.ax, mask, sc.scratch, if sc.patch_slots.is_empty() { 0 } else { sc.code_start });
     for e in evs.iter() {
         if e.before {
             if e.rip != ins.next_ip() {
@@ -1047,7 +1103,8 @@ fn c12_check(
     match out {
         StepOut::Ok(_) => {
             if hook_failed {
-                ctx.dev("C12", "C12|hook_error|step_ok".into(), "a hook failed but step() returned Ok".into());
+                let also_stopped = evs.iter().any(|e| e.answer == "SE");
+                ctx.dev("C12", format!("C12|hook_error|step_ok|{}", if also_stopped { "hook_also_stopped" } else { "plain" }), "a hook failed but step() returned Ok".into());
             }
         }
         StepOut::Err(_) => {}
@@ -1271,7 +1328,7 @@ fn drive_exec(sc: &Sc, rng_seed: u64, ctx: &mut Ctx, cuts: &[u64]) -> Rec {
                 // *after* the count moved, so the count alone cannot tell it from the limit error)
                 let hook_failed = {
                     let h = m.host.borrow();
-                    h.log.len() > log_before && h.log.last().map(|e| e.answer == "E").unwrap_or(false)
+                    h.log.len() > log_before && h.log.last().map(|e| e.answer == "E" || e.answer == "SE").unwrap_or(false)
                 };
                 if !hook_failed {
                     if let Some(tl) = temp {
